@@ -50,8 +50,53 @@ func (r Rng) fullRangeID() ID {
 	return ID{h, r.edgeIn(0, nh-1), r.edgeIn(0, nh-1), v, r.edgeIn(-nv, nv-1)}
 }
 
+// lawRowBracket: latitudes on the 1e-10-degree storage grid that bracket a row border of a coarse zoom.  Whatever
+// row such a point falls into, looking it up at the coarse zoom must agree with zooming out its ID of a finer
+// zoom: the row fraction of a latitude is one number, scaled by exact powers of two (C09, for latitudes the
+// model itself does not decide).
+func lawRowBracket(t *Tracer, r Rng) {
+	hc := r.In(12, 27)
+	hf := r.In(hc+1, 35)
+	v := r.In(0, 35)
+	n := int64(1) << uint(hc)
+	var yb int64
+	switch r.Intn(4) {
+	case 0: // within a degree of the equator
+		yb = n/2 + r.In(-n/360, n/360)
+	case 1: // near the latitude limits
+		yb = r.Pick(r.In(1, 1+n/200), n-1-r.In(0, n/200))
+	default:
+		yb = r.In(1, n-1)
+	}
+	if yb < 1 || yb > n-1 {
+		return
+	}
+	border := gammaLat(yb, hc)
+	lat := (math.Floor(border*1e10) + float64(r.In(-1, 2))) / 1e10
+	lon := float64(r.In(-1799999, 1799999)) / 1e4
+	p, err := object.NewPoint(lon, lat, float64(r.In(-100, 10000)))
+	if err != nil {
+		return
+	}
+	coarse, e1 := shape.GetExtendedSpatialIdsOnPoints([]*object.Point{p}, hc, v)
+	fine, e2 := shape.GetExtendedSpatialIdsOnPoints([]*object.Point{p}, hf, v)
+	if e1 != nil || e2 != nil {
+		emitLaw(t, "RowBracketHierarchy", map[string]any{"lat": lat, "hc": hc, "hf": hf}, []string{"lookup failed"}, []string{"ok expected"}, "")
+		return
+	}
+	out, e3 := integrate.ChangeExtendedSpatialIdsZoom(fine, hc, v)
+	if e3 != nil {
+		out = []string{"zoom change failed"}
+	}
+	emitLaw(t, "RowBracketHierarchy", map[string]any{"p": hexTriple(p.Lon(), p.Lat(), p.Alt()), "hc": hc, "hf": hf, "v": v}, coarse, out, "")
+}
+
 func driveLaws(t *Tracer, r Rng, n int) {
 	for i := 0; i < n; i++ {
+		if i%3 == 2 {
+			lawRowBracket(t, r)
+			continue
+		}
 		switch r.Intn(10) {
 		case 9: // a single tile's IDs are exactly the vertical range the key conversion reports (any magnitude)
 			E := r.In(0, 35)
